@@ -350,6 +350,7 @@ static bool xc_IsValidKey(string_view k) { return g_vk != 0; }
 static bool xc_IsValidValue(string_view v) { return g_vv != 0; }
 /* string_view == / != between the given key and the walked member's key */
 static bool xc_key_ne(string_view a, string_view b) { return !g_same; }
+static bool xc_other_cmp(void) { bool r; return r; }
 """
 
 
@@ -384,8 +385,20 @@ def _configure_cap(cfg):
     cfg.ext_q["TraceState::GetDefault"] = lambda em, node, recv, args: "xc_TraceState_GetDefault_ptr()"
     cfg.ext_q["TraceState::IsValidKey"] = lambda em, node, recv, args: "xc_IsValidKey(%s)" % em.expr(args[0])
     cfg.ext_q["TraceState::IsValidValue"] = lambda em, node, recv, args: "xc_IsValidValue(%s)" % em.expr(args[0])
-    cfg.ext_q["nostd::operator!="] = lambda em, node, recv, args: "xc_key_ne(%s, %s)" % (em.expr(args[0]), em.expr(args[1]))
-    cfg.ext_q["nostd::operator=="] = lambda em, node, recv, args: "(!xc_key_ne(%s, %s))" % (em.expr(args[0]), em.expr(args[1]))
+    def _cmp(neg):
+        def h(em, node, recv, args):
+            a, b = em.expr(args[0]), em.expr(args[1])
+            if "key" in a and "key" in b:
+                # the given key against a walked member's key: the ghost g_same
+                return ("xc_key_ne(%s, %s)" if neg else "(!xc_key_ne(%s, %s))") % (a, b)
+            # any other string comparison (values, ...): not modelled, an arbitrary answer
+            em.report["string comparisons other than key-against-member-key answered arbitrarily"] += 1
+            return "xc_other_cmp()"
+        return h
+    cfg.ext_q["nostd::operator!="] = _cmp(True)
+    cfg.ext_q["nostd::operator=="] = _cmp(False)
+    for n in ("std::operator!=", "std::operator=="):
+        cfg.ext_q[n] = lambda em, node, recv, args: "xc_other_cmp()"
     cfg.ext_q["unique_ptr<common::KeyValueProperties>::operator->"] = lambda em, node, recv, args: em.expr(unp(recv))
     cfg.ext_q["shared_ptr<trace::TraceState>::operator->"] = lambda em, node, recv, args: em.expr(unp(recv))
     cfg.ctor_ext["nostd::shared_ptr"] = lambda em, node, args: (em.expr(args[0]) if args else "NULL")
